@@ -170,3 +170,252 @@ Proof.
     + destruct (o_sp o) as [sp|]; [|discriminate]. destruct (sp_verify sp g dom) eqn:S; [|discriminate]. intros [= <-].
       split; [reflexivity|]. split; [intros comm0 [= <-]; now exists g0, rp|]. intros g' [= <-]. now exists sp.
 Qed.
+
+(* ================================================================== every generator of an accepted transaction is H_a + r·G *)
+Definition opened_gen (g : gel) : Prop := exists a abf, geq g (asset_gen a abf).
+Lemma opened_gen_geq g g' : geq g g' -> opened_gen g' -> opened_gen g.
+Proof. intros E (a & abf & G). exists a, abf. now rewrite E. Qed.
+Lemma asset_gen_add a abf r : geq (gadd (asset_gen a abf) (gscale r gG)) (asset_gen a (zadd abf r)).
+Proof.
+  intro k. unfold asset_gen. rewrite !coeff_add, !coeff_scale, coeff_G, coeff_H.
+  destruct (N.eqb k (kH a)), (N.eqb k kG); zn_ring.
+Qed.
+Lemma Forall2_geq_nth l l' : Forall2 geq l l' -> forall i d, nth_error l i = Some d -> exists d', nth_error l' i = Some d' /\ geq d d'.
+Proof. induction 1 as [|x y l l' E F IH]; intros [|i] d NE; cbn in *; try discriminate. - injection NE as <-. now exists y. - now apply IH. Qed.
+Lemma dom_opened dom ss : Forall2 geq dom (map sgen ss) -> Forall opened_gen dom.
+Proof.
+  revert dom. induction ss as [|s ss IH]; intros dom F; inversion F; subst; constructor.
+  - exists (s_asset s), (s_abf s). assumption. - now apply IH.
+Qed.
+(* the generator of an accepted output, with the asset it carries *)
+Lemma out_gen_opened dom k o c : Forall opened_gen dom -> verify_output dom k o = OVal c ->
+  forall g, get_asset_gen o = OVal g -> opened_gen g.
+Proof.
+  intros D V g G. destruct (verify_output_inv _ _ _ _ V) as (_ & _ & SP). unfold get_asset_gen in G.
+  destruct (o_asset o) as [|a|g0] eqn:A; try discriminate; injection G as <-.
+  - exists a, 0. symmetry. apply asset_gen_0.
+  - destruct (SP g0 eq_refl) as (sp & _ & SV). destruct (sp_verify_sound _ _ _ SV) as (d & ND & E & _).
+    rewrite Forall_forall in D. destruct (D d (nth_error_In _ _ ND)) as (a & abf & Ed).
+    exists a, (zadd abf (sp_diff sp)). rewrite E, Ed. apply asset_gen_add.
+Qed.
+
+(* ---- C05_sound: acceptance implies openings of all outputs that balance per asset AS INTEGERS *)
+(* `s` opens the output `o` whose value commitment (as verify computes it) is `c` *)
+Definition out_opened (o : txout) (c : gel) (s : secrets) : Prop :=
+  (exists g, get_asset_gen o = OVal g /\ geq g (sgen s)) /\ get_value_commit o = OVal c /\ geq c (scommit s)
+  /\ (forall v, o_value o = VExp v -> s_value s = v) /\ (forall a, o_asset o = AExp a -> s_asset s = a).
+(* the proofs an accepted output carries are proofs for THAT output *)
+Definition proofs_for (dom : list gel) (o : txout) : Prop :=
+  (forall comm, o_value o = VConf comm -> exists gen rp, get_asset_gen o = OVal gen /\ o_rp o = Some rp /\ rp_verify rp comm (o_script o) gen = true)
+  /\ (forall g, o_asset o = AConf g -> exists sp, o_sp o = Some sp /\ sp_verify sp g dom = true).
+Definition asset_total (b : N) (l : list secrets) : Z :=
+  isum (map (fun s => if N.eqb b (s_asset s) then s_value s else 0) l).
+Definition u64 (v : Z) : Prop := 0 <= v < 2 ^ 64.
+
+Lemma asset_total_bound b l : Forall (fun s => u64 (s_value s)) l -> 0 <= asset_total b l <= Z.of_nat (length l) * (2 ^ 64 - 1).
+Proof.
+  unfold asset_total, u64. induction 1 as [|s l U F IH]; cbn [map isum fold_right length]. - lia.
+  - fold isum in *. unfold isum in IH. destruct (N.eqb b (s_asset s)); lia.
+Qed.
+Lemma zsum_H_total b l : zsum (map (fun s => coeff (scommit s) (kH b)) l) = (asset_total b l) mod qn.
+Proof.
+  unfold asset_total. rewrite zsum_isum.
+  enough (E : eqn (isum (map (fun s => coeff (scommit s) (kH b)) l))
+                  (isum (map (fun s => if N.eqb b (s_asset s) then s_value s else 0) l))) by exact E.
+  induction l as [|s l IH]; cbn [map isum fold_right]. - reflexivity.
+  - fold (isum (map (fun s => coeff (scommit s) (kH b)) l)).
+    fold (isum (map (fun s => if N.eqb b (s_asset s) then s_value s else 0) l)).
+    rewrite IH, coeff_scommit_H. destruct (N.eqb b (s_asset s)); [rewrite mod_eqn|]; reflexivity.
+Qed.
+Lemma gH_asset_gen_eq a0 a abf : geq (gH a0) (asset_gen a abf) -> a0 = a.
+Proof.
+  intro G. pose proof (G (kH a0)) as Ha. rewrite coeff_H, N.eqb_refl, coeff_asset_gen_H in Ha.
+  destruct (N.eqb_spec a0 a); [assumption|discriminate].
+Qed.
+
+(* one accepted output has an opening *)
+Lemma output_opening dom k o c : Forall opened_gen dom -> verify_output dom k o = OVal c ->
+  (forall v, o_value o = VExp v -> u64 v) ->
+  exists s, out_opened o c s /\ u64 (s_value s).
+Proof.
+  intros D V U. destruct (verify_output_inv _ _ _ _ V) as (GV & RP & SP).
+  pose proof GV as GV0. unfold get_value_commit in GV. destruct (o_value o) as [|v|comm] eqn:OV; try discriminate.
+  - destruct (v =? 0); [destruct (is_provably_unspendable (o_script o)); discriminate|].
+    destruct (get_asset_gen o) as [g| |] eqn:GA; cbn [obind] in GV; try discriminate.
+    destruct (out_gen_opened _ _ _ _ D V g GA) as (a & abf & G).
+    unfold pedersen_unblinded in GV. destruct (geqb (commit v g 0) gzero); [discriminate|]. injection GV as <-.
+    exists (mkSec a abf v 0). split; [|cbn; now apply U]. split; [exists g; split; [exact GA|exact G]|].
+    split; [exact GV0|]. split; [unfold scommit, sgen; cbn; now rewrite G|]. split; [intros v' E; cbn; congruence|].
+    intros a0 A0. unfold get_asset_gen in GA. rewrite A0 in GA. injection GA as <-. cbn. symmetry. now apply (gH_asset_gen_eq a0 a abf).
+  - injection GV as <-. destruct (RP comm eq_refl) as (gen & rp & GA & _ & RV).
+    destruct (rp_verify_sound _ _ _ _ RV) as (C & R & _).
+    destruct (out_gen_opened _ _ _ _ D V gen GA) as (a & abf & G).
+    exists (mkSec a abf (rp_value rp) (rp_vbf rp)). split; [|exact R]. split; [exists gen; split; [exact GA|exact G]|].
+    split; [exact GV0|]. split; [unfold scommit, sgen; cbn; now rewrite C, G|]. split; [intros v' E; congruence|].
+    intros a0 A0. unfold get_asset_gen in GA. rewrite A0 in GA. injection GA as <-. cbn. symmetry. now apply (gH_asset_gen_eq a0 a abf).
+Qed.
+Lemma outputs_opening dom : Forall opened_gen dom -> forall outs k cs, verify_outputs dom outs k = OVal cs ->
+  Forall (fun o => forall v, o_value o = VExp v -> u64 v) outs ->
+  exists os, Forall2 (fun oc s => out_opened (fst oc) (snd oc) s) (combine outs cs) os /\ length os = length outs
+             /\ Forall (fun s => u64 (s_value s)) os /\ Forall2 geq cs (map scommit os) /\ Forall (proofs_for dom) outs.
+Proof.
+  intros D. induction outs as [|o outs IH]; intros k cs V U; cbn [verify_outputs] in V.
+  - injection V as <-. exists []. repeat split; constructor.
+  - destruct (verify_output dom k o) as [c| |] eqn:VO; cbn [obind] in V; try discriminate.
+    destruct (verify_outputs dom outs (S k)) as [cs'| |] eqn:VR; cbn [obind] in V; try discriminate. injection V as <-.
+    inversion U as [|? ? Uo Ur]; subst.
+    destruct (output_opening _ _ _ _ D VO Uo) as (s & O & Us). destruct (IH _ _ VR Ur) as (os & F & L & FU & FC & PF).
+    exists (s :: os). cbn [combine map length]. split; [constructor; assumption|]. split; [congruence|]. split; [constructor; assumption|].
+    split; [constructor; [apply O|assumption]|]. constructor; [|assumption].
+    destruct (verify_output_inv _ _ _ _ VO) as (_ & RP & SP). split; assumption.
+Qed.
+
+Theorem verify_sound T spent ss :
+  verify_tx_amt_proofs T spent = OVal tt -> opens (t_in T) spent ss ->
+  Forall (fun s => u64 (s_value s)) ss -> Forall (fun o => forall v, o_value o = VExp v -> u64 v) (t_out T) ->
+  Z.of_nat (length ss) * 2 ^ 64 < qn -> Z.of_nat (length (t_out T)) * 2 ^ 64 < qn ->
+  exists dom coms ocoms os,
+    verify_inputs (t_in T) spent 0 = OVal (dom, coms) /\ verify_outputs dom (t_out T) 0 = OVal ocoms
+    /\ Forall2 (fun oc s => out_opened (fst oc) (snd oc) s) (combine (t_out T) ocoms) os /\ length os = length (t_out T)
+    /\ Forall (fun s => u64 (s_value s)) os
+    /\ (forall b, asset_total b ss = asset_total b os)                 (* integer balance per asset *)
+    /\ Forall (proofs_for dom) (t_out T).
+Proof.
+  intros V OP US UO BS BO. apply verify_ok_inv in V as (L & dom & coms & ocoms & VI & VO & B).
+  destruct (verify_inputs_ok _ _ _ OP 0%nat) as (dom' & coms' & VI' & D & C). rewrite VI in VI'. injection VI' as <- <-.
+  destruct (outputs_opening dom (dom_opened _ _ D) _ _ _ VO UO) as (os & F & LO & FU & FC & PF).
+  exists dom, coms, ocoms, os. repeat split; try assumption.
+  intro b. pose proof (B (kH b)) as Hb. rewrite (coeff_gsum_geq coms ss _ C), (coeff_gsum_geq ocoms os _ FC), !zsum_H_total in Hb.
+  pose proof (asset_total_bound b ss US). pose proof (asset_total_bound b os FU). rewrite LO in *.
+  rewrite !Z.mod_small in Hb by lia. exact Hb.
+Qed.
+
+(* ================================================================== all-explicit transactions *)
+Definition explicit_spent (u : txout) : Prop := exists a v, o_asset u = AExp a /\ o_value u = VExp v /\ 0 < v < 2 ^ 64.
+Definition explicit_amount (v : cvalue) : Prop := v = VNull \/ exists x, v = VExp x /\ 0 < x < 2 ^ 64.
+Definition explicit_iss (i : txin) : Prop := explicit_amount (is_amount (in_iss i)) /\ explicit_amount (is_keys (in_iss i)).
+Definition explicit_out (o : txout) : Prop := exists a v, o_asset o = AExp a /\ o_value o = VExp v /\ 0 <= v < 2 ^ 64.
+Definition all_explicit (T : tx) (spent : list txout) : Prop :=
+  Forall explicit_spent spent /\ Forall explicit_iss (t_in T) /\ Forall explicit_out (t_out T).
+(* the explicit amounts on the input side, per input: the spent output, then its issuance pseudo-inputs *)
+Definition explicit_secret (u : txout) : secrets :=
+  match o_asset u, o_value u with AExp a, VExp v => mkSec a 0 v 0 | _, _ => mkSec 0 0 0 0 end.
+Fixpoint input_secrets (ins : list txin) (spent : list txout) : list secrets :=
+  match ins, spent with
+  | i :: ins', u :: spent' => explicit_secret u :: iss_secrets i ++ input_secrets ins' spent'
+  | _, _ => []
+  end.
+Definition explicit_out_total (b : N) (outs : list txout) : Z := asset_total b (map explicit_secret outs).
+(* the property's rule: an explicit zero amount is admissible only on a provably unspendable script *)
+Definition zero_value_rule (T : tx) : Prop :=
+  Forall (fun o => o_value o = VExp 0 -> is_provably_unspendable (o_script o) = true) (t_out T).
+(* finding F13: the class of transactions on which the code deviates — an explicit zero amount on a provably unspendable script *)
+Definition known_F13 (T : tx) : bool :=
+  existsb (fun o => match o_value o with VExp 0 => is_provably_unspendable (o_script o) | _ => false end) (t_out T).
+
+Lemma qn_u64 v : 0 < v < 2 ^ 64 -> 0 < v < qn.
+Proof. pose proof qn_big. intros [A B]. split; [assumption|]. apply Z.lt_trans with (2 ^ 255); [|assumption]. eapply Z.lt_trans; [exact B|reflexivity]. Qed.
+Lemma explicit_amount_ok v : explicit_amount v -> amount_ok v.
+Proof. intros [->|(x & -> & X)]; [now left|right]. exists x. split; [reflexivity|now apply qn_u64]. Qed.
+Lemma explicit_opens : forall ins spent, length spent = length ins -> Forall explicit_spent spent -> Forall explicit_iss ins ->
+  opens ins spent (input_secrets ins spent).
+Proof.
+  induction ins as [|i ins IH]; intros [|u spent] L FS FI; cbn in L; try discriminate; cbn [input_secrets]. - constructor.
+  - inversion FS as [|? ? (a & v & A & V & R) FS']; subst. inversion FI as [|? ? [IA IK] FI']; subst.
+    unfold explicit_secret. rewrite A, V. constructor.
+    + left. split; [exact A|reflexivity]. + left. cbn. repeat split; try assumption; try reflexivity; now apply qn_u64.
+    + split; now apply explicit_amount_ok. + apply IH; [lia|assumption|assumption].
+Qed.
+Lemma input_secrets_u64 : forall ins spent, Forall explicit_spent spent -> Forall explicit_iss ins ->
+  Forall (fun s => u64 (s_value s) /\ s_abf s = 0 /\ s_vbf s = 0) (input_secrets ins spent).
+Proof.
+  induction ins as [|i ins IH]; intros [|u spent] FS FI; cbn [input_secrets]; try constructor.
+  - inversion FS as [|? ? (a & v & A & V & R) FS']; subst. unfold explicit_secret. rewrite A, V. cbn. unfold u64. repeat split; lia.
+  - inversion FS as [|? ? _ FS']; subst. inversion FI as [|? ? [IA IK] FI']; subst. apply Forall_app. split; [|now apply IH].
+    unfold iss_secrets. destruct (has_issuance i); [|constructor]. apply Forall_app. split.
+    + destruct IA as [->|(x & -> & X)]; repeat constructor; cbn; unfold u64; lia.
+    + destruct IK as [->|(x & -> & X)]; repeat constructor; cbn; unfold u64; lia.
+Qed.
+(* the output loop on explicit outputs with non-zero amounts *)
+Lemma verify_outputs_explicit dom : forall outs k, Forall explicit_out outs -> Forall (fun o => o_value o <> VExp 0) outs ->
+  exists cs, verify_outputs dom outs k = OVal cs /\ Forall2 geq cs (map scommit (map explicit_secret outs)).
+Proof.
+  induction outs as [|o outs IH]; intros k FE FN; cbn [verify_outputs map]. - exists []. split; constructor.
+  - inversion FE as [|? ? (a & v & A & V & R) FE']; subst. inversion FN as [|? ? NZ FN']; subst.
+    destruct (IH (S k) FE' FN') as (cs & -> & C).
+    assert (VP : 0 < v < qn). { apply qn_u64. rewrite V in NZ. assert (v <> 0) by congruence. lia. }
+    unfold verify_output, get_value_commit, get_asset_gen, explicit_secret. rewrite V, A.
+    destruct (Z.eqb_spec v 0) as [Z0|_]; [lia|]. cbn [obind map_err]. rewrite pedersen_unblinded_H by exact VP. cbn [obind].
+    eexists. split; [reflexivity|]. constructor; [apply scommit_iss|exact C].
+Qed.
+Lemma explicit_G l : Forall (fun s => s_abf s = 0 /\ s_vbf s = 0) l -> zsum (map (fun s => coeff (scommit s) kG) l) = 0.
+Proof.
+  induction 1 as [|s l [A B] F IH]; cbn [map zsum fold_right]. - reflexivity.
+  - fold (zsum (map (fun s => coeff (scommit s) kG) l)). rewrite IH, coeff_scommit_G. unfold svb, vb. rewrite A, B.
+    unfold zadd, zmul. rewrite Z.mul_0_r. reflexivity.
+Qed.
+Lemma out_secrets_props outs : Forall explicit_out outs ->
+  Forall (fun s => u64 (s_value s) /\ s_abf s = 0 /\ s_vbf s = 0) (map explicit_secret outs).
+Proof.
+  induction 1 as [|o outs (a & v & A & V & R) F IH]; cbn [map]; constructor; [|assumption].
+  unfold explicit_secret. rewrite A, V. cbn. unfold u64. repeat split; lia.
+Qed.
+Lemma Forall_and_l {A} (P Q : A -> Prop) l : Forall (fun x => P x /\ Q x) l -> Forall P l.
+Proof. induction 1 as [|x l [H _] F IH]; constructor; assumption. Qed.
+Lemma Forall_and_r {A} (P Q : A -> Prop) l : Forall (fun x => P x /\ Q x) l -> Forall Q l.
+Proof. induction 1 as [|x l [_ H] F IH]; constructor; assumption. Qed.
+
+(* an all-explicit transaction is accepted exactly when the spent list has the right length, all output amounts are
+   non-zero and every asset balances as integers *)
+Theorem explicit_iff_model T spent :
+  all_explicit T spent ->
+  Z.of_nat (length (input_secrets (t_in T) spent)) * 2 ^ 64 < qn -> Z.of_nat (length (t_out T)) * 2 ^ 64 < qn ->
+  (verify_tx_amt_proofs T spent = OVal tt <->
+   length spent = length (t_in T) /\ Forall (fun o => o_value o <> VExp 0) (t_out T)
+   /\ forall b, asset_total b (input_secrets (t_in T) spent) = explicit_out_total b (t_out T)).
+Proof.
+  intros (FS & FI & FO) BS BO. split.
+  - intro V. pose proof V as V0. apply verify_ok_inv in V as (L & dom & coms & ocoms & VI & VO & B).
+    assert (NZ : Forall (fun o => o_value o <> VExp 0) (t_out T)).
+    { apply Forall_forall. intros o I Z0. apply In_nth_error in I as (j & NE).
+      destruct (verify_outputs_nth _ _ _ _ VO) as [_ N]. destruct (N j o NE) as (c & Vo & _).
+      destruct (verify_output_inv _ _ _ _ Vo) as (GV & _). unfold get_value_commit in GV. rewrite Z0 in GV. cbn in GV.
+      destruct (is_provably_unspendable (o_script o)); discriminate. }
+    split; [exact L|]. split; [exact NZ|]. intro b.
+    pose proof (explicit_opens _ _ L FS FI) as OP.
+    destruct (verify_inputs_ok _ _ _ OP 0%nat) as (dom' & coms' & VI' & D & C). rewrite VI in VI'. injection VI' as <- <-.
+    destruct (verify_outputs_explicit dom _ 0%nat FO NZ) as (cs & VO' & CS). rewrite VO in VO'. injection VO' as <-.
+    pose proof (B (kH b)) as Hb. rewrite (coeff_gsum_geq coms _ _ C), (coeff_gsum_geq ocoms _ _ CS), !zsum_H_total in Hb.
+    pose proof (asset_total_bound b _ (Forall_and_l _ _ _ (input_secrets_u64 _ _ FS FI))).
+    pose proof (asset_total_bound b _ (Forall_and_l _ _ _ (out_secrets_props _ FO))). rewrite map_length in *.
+    unfold explicit_out_total. rewrite !Z.mod_small in Hb by lia. exact Hb.
+  - intros (L & NZ & BAL). apply verify_ok_inv. split; [exact L|].
+    pose proof (explicit_opens _ _ L FS FI) as OP.
+    destruct (verify_inputs_ok _ _ _ OP 0%nat) as (dom & coms & VI & D & C).
+    destruct (verify_outputs_explicit dom _ 0%nat FO NZ) as (cs & VO & CS).
+    exists dom, coms, cs. split; [exact VI|]. split; [exact VO|]. intro k.
+    rewrite (coeff_gsum_geq coms _ _ C), (coeff_gsum_geq cs _ _ CS).
+    destruct (bkey_cases k) as [->|(b & ->)].
+    + rewrite !explicit_G; [reflexivity| |].
+      * apply (Forall_and_r _ _ _ (out_secrets_props _ FO)).
+      * apply (Forall_and_r _ _ _ (input_secrets_u64 _ _ FS FI)).
+    + rewrite !zsum_H_total. f_equal. apply BAL.
+Qed.
+
+Lemma known_F13_false T : known_F13 T = false ->
+  (zero_value_rule T <-> Forall (fun o => o_value o <> VExp 0) (t_out T)).
+Proof.
+  unfold known_F13, zero_value_rule. intro K. rewrite !Forall_forall. split; intros H o I.
+  - intro Z0. specialize (H o I Z0).
+    assert (X : existsb (fun o => match o_value o with VExp 0 => is_provably_unspendable (o_script o) | _ => false end) (t_out T) = true).
+    { apply existsb_exists. exists o. split; [exact I|]. rewrite Z0. exact H. } congruence.
+  - intro Z0. exfalso. now apply (H o I).
+Qed.
+(* the property's characterisation, outside the F13 class *)
+Theorem explicit_iff T spent :
+  all_explicit T spent -> known_F13 T = false ->
+  Z.of_nat (length (input_secrets (t_in T) spent)) * 2 ^ 64 < qn -> Z.of_nat (length (t_out T)) * 2 ^ 64 < qn ->
+  (verify_tx_amt_proofs T spent = OVal tt <->
+   length spent = length (t_in T) /\ zero_value_rule T
+   /\ forall b, asset_total b (input_secrets (t_in T) spent) = explicit_out_total b (t_out T)).
+Proof. intros AE K BS BO. rewrite (explicit_iff_model T spent AE BS BO), (known_F13_false T K). reflexivity. Qed.
